@@ -54,10 +54,11 @@ typedef struct { unsigned char buf[24 * 4]; long ptr_off; size_t dmax; int ref_p
 static int verbose;
 
 static int run_history(const unsigned char *s, int L, int dk, const int *dseq, int ndseq, int maxcalls, int branch_record, uint64_t *state_hashes, int *nstates) {
-    long obj = dk == 0 ? L + 1 : dk == 1 ? L + 3 : dk == 3 ? L + 6 : L;          /* elements in the object; kind 3: the tail of an older, longer record behind the terminator */
+    long obj = dk == 0 || dk == 4 ? L + 1 : dk == 1 ? L + 3 : dk == 3 ? L + 6 : L;          /* elements in the object; kind 3: the tail of an older, longer record behind the terminator */
     if (obj == 0) return 0;
     size_t dmax0 = obj;
     unsigned char *buf = arena + PG + PG - obj * W;            /* flush against the trailing guard */
+    if (dk == 4) buf = arena + PG + 512;                       /* kind 4: the delimiter list is stored directly behind the array (delim == dest + dmax, e.g. the next member of a record) */
     unsigned char orig[24 * 4];
     for (long i = 0; i < obj; i++) es(buf, i, i < L ? s[i] : (i == L ? 0 : dk == 3 ? (unsigned long)(unsigned char)",b;a\xa7"[i - L - 1] : 0xAA - i));
     memcpy(orig, buf, obj * W);
@@ -70,7 +71,9 @@ static int run_history(const unsigned char *s, int L, int dk, const int *dseq, i
         int ds = dseq[calls % ndseq];
         void *first = calls == 0 ? buf : NULL;
         h_n = 0; errno = 0; void *r = NULL; int faulted = 0; size_t dmax_before = dmax;
-        if (sigsetjmp(jb, 1) == 0) { armed = 1; r = tok(first, &dmax, dptr[ds], &ctx, (size_t)-1); armed = 0; }
+        const void *dl = dptr[ds];
+        if (dk == 4) { unsigned char *dd = buf + obj * W; long n = strlen(DSETS[ds]) + 1; for (long i = 0; i < n; i++) es(dd, i, (unsigned char)DSETS[ds][i]); dl = dd; }
+        if (sigsetjmp(jb, 1) == 0) { armed = 1; r = tok(first, &dmax, dl, &ctx, (size_t)-1); armed = 0; }
         else faulted = 1;
         calls++; st.n_calls++;
         if (verbose) printf("  call %d delim=\"%s\" -> ret_off=%ld *ptr_off=%ld *dmaxp=%zu errno=%d handler=%d fault=%d buf=", calls, DSETS[ds], r ? ((unsigned char *)r - buf) / W : -1L, ctx ? ((unsigned char *)ctx - buf) / W : -1L, dmax, errno, h_n, faulted);
@@ -128,6 +131,28 @@ static int run_history(const unsigned char *s, int L, int dk, const int *dseq, i
     }
 }
 
+/* nested sequences: the outer one splits s on ';', every record it returns is split in place on ',' by an inner sequence with a context of its own
+ * (dmax = record length + 1) before the outer one is continued - what the context argument exists for */
+static void run_nested(const unsigned char *s, int L) {
+    long obj = L + 1; unsigned char *buf = arena + PG + PG - obj * W;
+    for (long i = 0; i < obj; i++) es(buf, i, i < L ? s[i] : 0);
+    char want[200] = "", got[200] = "";
+    { int p = 0; while (p < L) { while (p < L && s[p] == ';') p++; if (p >= L) break; int q = p; while (q < L && s[q] != ';') q++; strcat(want, "[");
+        int a = p; while (a < q) { while (a < q && s[a] == ',') a++; if (a >= q) break; int b = a; while (b < q && s[b] != ',') b++; char t[40]; int k = 0; for (int i = a; i < b; i++) k += sprintf(t + k, "%02x", s[i]); strcat(want, t); strcat(want, "."); a = b; }
+        strcat(want, "]"); p = q; } }
+    size_t dmax = obj; void *ctx = NULL; int faulted = 0, outer = 0; h_n = 0;
+    if (sigsetjmp(jb, 1) == 0) { armed = 1;
+        for (void *r = tok(buf, &dmax, dptr[1], &ctx, (size_t)-1); r && outer < 12; r = tok(NULL, &dmax, dptr[1], &ctx, (size_t)-1)) { outer++; st.n_calls++;
+            strcat(got, "["); long tl = 0; while (eg(r, tl)) tl++;
+            size_t idmax = tl + 1; void *ictx = NULL; int inner = 0;
+            for (void *t = tok(r, &idmax, dptr[0], &ictx, (size_t)-1); t && inner < 12; t = tok(NULL, &idmax, dptr[0], &ictx, (size_t)-1)) { inner++; st.n_calls++; char b[40]; int k = 0; for (long i = 0; eg(t, i) && i < 16; i++) k += sprintf(b + k, "%02lx", eg(t, i)); b[k] = 0; if (strlen(got) < 150) { strcat(got, b); strcat(got, "."); } }
+            strcat(got, "]"); if (strlen(got) > 150) break; }
+        armed = 0; } else faulted = 1;
+    if (verbose) printf("  nested: expected %s\n          got      %s  fault=%d handler=%d\n", want, got, faulted, h_n);
+    if (faulted) { report("nested-sequences|%s", "fault"); return; }
+    if (strcmp(want, got)) report("nested-sequences|%s", strlen(got) < strlen(want) ? "tokens-missing" : "wrong-tokens");
+}
+
 static const unsigned char ALPHA[5] = { 'a', 'b', ',', ';', 0xa7 };
 #define NA 5
 
@@ -155,9 +180,10 @@ int main(int argc, char **argv) {
     char cs[300];
     if (replay) {
         unsigned char s[16]; int Ls = strlen(argv[3]) / 2; for (int i = 0; i < Ls; i++) { unsigned v; sscanf(argv[3] + 2 * i, "%2x", &v); s[i] = v; }
+        if (!strcmp(argv[4], "nested")) { verbose = 1; snprintf(cs, sizeof cs, "%s %s nested -", kind, argv[3]); cur_case = cs; run_nested(s, Ls); if (nsig) { printf("VERDICT violation %s\n", sigs[0]); return 1; } printf("VERDICT ok\n"); return 0; }
         int dk = atoi(argv[4]); int dseq[32], nd = strlen(argv[5]); for (int i = 0; i < nd; i++) dseq[i] = argv[5][i] - '0';
         verbose = 1; snprintf(cs, sizeof cs, "%s %s %d %s", kind, argv[3], dk, argv[5]); cur_case = cs;
-        printf("string \""); for (int i = 0; i < Ls; i++) putchar(s[i]); printf("\" dmax-kind %d (0 exact, 1 slack, 2 unterminated, 3 stale record tail behind the terminator)\n", dk);
+        printf("string \""); for (int i = 0; i < Ls; i++) putchar(s[i]); printf("\" dmax-kind %d (0 exact, 1 slack, 2 unterminated, 3 stale record tail behind the terminator, 4 delimiter list stored directly behind the array)\n", dk);
         run_history(s, Ls, dk, dseq, nd, 2 * Ls + 8, 0, NULL, NULL);
         if (nsig) { printf("VERDICT violation %s\n", sigs[0]); return 1; }
         printf("VERDICT ok\n"); return 0;
@@ -171,7 +197,8 @@ int main(int argc, char **argv) {
             if ((idx++ % nsh) != shard) continue;
             unsigned char s[16]; long t = c; for (int i = 0; i < Ls; i++) { s[i] = ALPHA[t % NA]; t /= NA; }
             char hx[40]; for (int i = 0; i < Ls; i++) sprintf(hx + 2 * i, "%02x", s[i]); hx[2 * Ls] = 0; if (!Ls) strcpy(hx, "");
-            for (int dk = 0; dk < 4; dk++) {
+            if (!branch && Ls > 0) { snprintf(cs, sizeof cs, "%s %s nested -", kind, hx); cur_case = cs; st.n_cases++; run_nested(s, Ls); }
+            for (int dk = 0; dk < 5; dk++) {
                 if (!branch) {
                     for (int ds = 0; ds < NDS; ds++) {
                         snprintf(cs, sizeof cs, "%s %s %d %d", kind, Ls ? hx : "-", dk, ds); cur_case = cs;
